@@ -194,3 +194,22 @@ rev_fns!(E16, rt_feed_e16, rt_adv_e16, |v: i64| E16(v, !v), |x: &E16| if x.1 == 
 #[no_mangle] pub extern "C" fn rt_sbox_rev(b: cglue::boxed::CSliceBox<'static, u64>) -> u64 { let s = b.iter().fold(0u64, |a, x| a.wrapping_mul(31).wrapping_add(*x)); drop(b); s }
 /// a boxed slice built by Rust, for C to read through the fields and release through drop_fn
 #[no_mangle] pub extern "C" fn rt_mk_sbox(out: *mut cglue::boxed::CSliceBox<'static, u64>, n: usize, base: u64) { let v: Vec<u64> = (0..n as u64).map(|i| base + i).collect(); unsafe { out.write(v.into_boxed_slice().into()) } }
+/// kind 14: slices built by C.  Read through every way a callee gets at the elements (`as_slice`, `Deref`, the `From` conversion), written through
+/// `as_slice_mut` / `DerefMut` / the `From` conversion.
+#[no_mangle] pub extern "C" fn rt_slice_rev(s: CSliceRef<'static, u64>, len_seen: *mut usize) -> u64 {
+    let a = s.as_slice().iter().fold(0u64, |a, x| a.wrapping_mul(31).wrapping_add(*x));
+    let b = s.iter().fold(0u64, |a, x| a.wrapping_mul(31).wrapping_add(*x));
+    let l = s.len(); let e = s.is_empty();
+    let r: &[u64] = s.into();
+    let c = r.iter().fold(0u64, |a, x| a.wrapping_mul(31).wrapping_add(*x));
+    unsafe { *len_seen = if a == b && b == c && r.len() == l && e == (l == 0) { l } else { usize::MAX } };
+    a
+}
+#[no_mangle] pub extern "C" fn rt_slicem_rev(mut s: CSliceMut<'static, u64>, v: u64) -> usize {
+    let mut n = 0usize;
+    for x in s.iter_mut() { *x = 0; n += 1; }
+    let seen = s.as_slice().len();
+    let r: &mut [u64] = s.into();
+    for (i, x) in r.iter_mut().enumerate() { *x = v.wrapping_add(i as u64); }
+    if seen == n && r.len() == n { n } else { usize::MAX }
+}
